@@ -169,8 +169,8 @@ ENUM_GROUPS = {
                "all ordered pairs over (s,a): wide universe 5^3=125 sets over keys {A, p/B, A$I} x shapes {named, renamed, unnamed, named+comment}; deep universe 117 sets with key A: class name X/X' x comment none/c/d x field (LA;,f) absent/named/renamed+c x method ((Lp/B;)V,m) absent/named/renamed+c/parameter 0 named/renamed+comment/with source name, plus 8 sets with an unnamed class/field/method/parameter; 125^2+117^2=29314 pairs. Excluded by the property: 13337 pairs with an unnamed entry (must be refused, checked). Excluded as deviation: 2286 pairs where B has a parameter source name that A lacks or spells differently.", timeout=300),
             _t('apply_is_exact_or_refused', ['C04'], 'Applying diff(A,B) to any third set C gives exactly the model-level result (additions appear, removals disappear with their subtree, edits replace, other entries/namespaces/comments identical) or is refused; refused iff a stated old name/comment does not match, an addition collides, or an edit/removal addresses a missing entry.',
                "A,B: the 27 fully named sets of the 39-set chain universe (key A; one level at a time - class, field (LA;,f), method ((Lp/B;)V,m), parameter 0 - ranges over absent / {named X, named X', unnamed} x {no comment, c, d}; plus two multi-level sets) = 729 diffs; C: the 39 chain sets over (s,a), the same 39 with an unrelated class p/B (comment, field, method, parameter) added, and the 39 sets over three namespaces (s,c,a) with the diff applied in the third namespace; 729*117=85293 triples.", timeout=300),
-            _t('reorder_is_a_permutation', ['C08'], 'Mappings::reorder fails iff a class, field or method lacks a name in the new first namespace; otherwise namespaces and every name row are permuted, keys and descriptors are re-expressed in the new first namespace, comments and parameter indices are untouched, reordering back gives the original and the identity changes nothing.',
-               '2 namespaces (s,a), both permutations, all 9^3=729 sets over keys {A, p/B, A$I} x 8 shapes (named/unnamed/commented class; fields LA; and [Lp/B; named or not; method (LA;[[Lp/B;I)LA$I; with parameters with/without source name, named or not); 3 namespaces (s,a,b), all 6 permutations, all 12*12*5=720 sets over {A, p/B} x 11 shapes (4 absent-name patterns on the class, 3 on field LA;, 4 on method (Lp/B;)LA; with parameter) and A$I x 4 patterns; 729*2+720*6=5778 cases. Excluded: parameters without a name in the new first namespace are not required to make it fail.', timeout=300),
+            _t('reorder_is_a_permutation', ['C08'], 'Mappings::reorder fails iff a class, field or method lacks a name in the new first namespace or two siblings would get the same key there (nothing is dropped silently); otherwise namespaces and every name row are permuted, keys and descriptors are re-expressed in the new first namespace, comments and parameter indices are untouched, reordering back gives the original and the identity changes nothing.',
+               '2 namespaces (s,a), both permutations, all 9^3=729 sets over keys {A, p/B, A$I} x 8 shapes (named/unnamed/commented class; fields LA; and [Lp/B; named or not; method (LA;[[Lp/B;I)LA$I; with parameters with/without source name, named or not); 3 namespaces (s,a,b), all 6 permutations, all 12*12*5=720 sets over {A, p/B} x 11 shapes (4 absent-name patterns on the class, 3 on field LA;, 4 on method (Lp/B;)LA; with parameter) and A$I x 4 patterns; 729*2+720*6=5778 cases; plus colliding names: 7*7*3=147 sets (2 namespaces) and 10*10=100 sets (3 namespaces, all 6 permutations) in which classes, fields of one descriptor or methods of one descriptor share a literal name in a later namespace (controls: different descriptors). Excluded: parameters without a name in the new first namespace are not required to make it fail.', timeout=300),
             _t('extend_contract_inner_names', ['C11'], 'extend_inner_class_names rewrites, in the chosen namespace only, the name of every nested class to extended(outer)+$+own name recursively, fails iff an outer class (any depth) of a named class is missing or unnamed there, leaves everything else untouched; contract_inner_class_names keeps the part after the last $ of the last segment; contract(extend(M)) == M.',
                '2 namespaces, namespace a: all 4^4*5*3=3840 sets over keys A, A$I$K, p/B, p/B$M (absent/named/unnamed/named with comment+field+method+parameter), A$I (those plus the nested-looking name Q$J) and a$b/C ($ in the package; absent/named/named x$y/Z); 3 namespaces (s,a,b), namespace a and namespace b: all 4^4=256 sets over A, A$I, A$I$K, p/B$M x {both named, a absent, b absent}; 4352 cases. Extension oracle domain: no name in the chosen namespace is itself of the form Outer$Inner (768 cases excluded, contraction still checked on them).', timeout=300),
             _t('remapper_consistency', ['C06'], 'remapper_a maps every class name to its counterpart or leaves it unchanged and rewrites field/array/method/return descriptors and array class names exactly at the class names; remapper_b answers a field/method with the declaration of the owner, else of the first declaring super type in depth-first declaration order, else the unchanged name with remapped descriptor, for every (from,to) including from != first; X->Y->X is the identity on classes, descriptors and declared members named in both namespaces.',
